@@ -52,6 +52,8 @@ def gen_systematic(rng, two=False):
     if rng.random() < 0.3:
         base['faults'] = [{'stage': 'u0', 'pos': rng.randrange(n),
                            'exc': rng.choice(['value', 'base'])}]
+    if not two and rng.random() < 0.5:
+        base['rel'] = 1     # decision points also right after every lock release
     if two:
         base['systematic'] = 2
         return parprops.two_preemption_cases(base, parrun.run_par_case)
